@@ -32,6 +32,7 @@ func runC02(c *core.Ctx) {
 	c.Rule("C02.register", "A2: newFork registers the task's edge under every key of forkKeys and remembers every key; delFork visits every remembered key, deletes only the task's own entry, closes (not aborts) the edge at most once and forgets the keys")
 	c.Rule("C02.locks", "A5: tm.forks, taskToForkKeys, forkStats, tasks are accessed only with tm.mu held — in the function itself or, for the helpers documented to need it, at every call site")
 	c.Rule("C02.matches", "A1: FromNode.matches is true iff no configured selector (db, rp, name) differs from the point's and the where-expression is absent or evaluates without error to true")
+	c.Rule("C02.where", "A3: the selection a from() node evaluates is the conjunction of all its where() properties: pipeline.FromNode.Where, when a condition is already set, stores BinaryNode{AND, <the condition set so far>, <the new condition>} (two different operands), otherwise the new lambda")
 	c.Rule("C02.ingest", "A2/A7: WritePoints/WriteKapacitorPoint test writesClosed under writesMu before collecting, build the point with (name, database, retentionPolicy) in their roles and collect every point in order into writePointsIn; a collect error is returned")
 
 	root := c.P.Pkg("")
@@ -45,6 +46,7 @@ func runC02(c *core.Ctx) {
 	c02Locks(c, root)
 	c02Matches(c, root)
 	c02Ingest(c, root)
+	c02Where(c)
 }
 
 func litFieldsOfType(info *types.Info, body ast.Node, typ string) []*ast.CompositeLit {
@@ -764,4 +766,64 @@ func c02Ingest(c *core.Ctx, root *packages.Package) {
 			c.Ok("C02.ingest", "TaskMaster."+name)
 		}
 	}
+}
+
+func c02Where(c *core.Ctx) {
+	pp := c.P.Pkg("pipeline")
+	fn := c.Need("C02.where", "pipeline", "FromNode", "Where")
+	if pp == nil || fn == nil {
+		return
+	}
+	info := pp.TypesInfo
+	param := an.ParamName(fn.Decl.Type, 0)
+	recv := an.RecvVarName(fn.Decl)
+	var lit *ast.CompositeLit
+	ast.Inspect(fn.Decl.Body, func(n ast.Node) bool {
+		if cl, ok := n.(*ast.CompositeLit); ok {
+			if tv, ok := info.Types[cl]; ok {
+				if named := core.NamedOf(tv.Type); named != nil && named.Obj().Name() == "BinaryNode" {
+					lit = cl
+				}
+			}
+		}
+		return true
+	})
+	if lit == nil {
+		c.Fail("C02.where", "FromNode.Where#and", fn.Decl.Pos(), "a second where() does not build a conjunction with the condition already set: only one of the conditions selects points")
+		return
+	}
+	flat := map[string]string{}
+	for _, el := range lit.Elts {
+		if kv, ok := el.(*ast.KeyValueExpr); ok {
+			flat[types.ExprString(kv.Key)] = types.ExprString(kv.Value)
+		}
+	}
+	soFar, fresh := recv+".Lambda.Expression", param+".Expression"
+	operands := (flat["Left"] == soFar && flat["Right"] == fresh) || (flat["Left"] == fresh && flat["Right"] == soFar)
+	c.Check(strings.HasSuffix(flat["Operator"], "TokenAnd") && operands, "C02.where", "FromNode.Where#and", lit.Pos(), "a second where() must store (condition so far) AND (new condition); it stores %s %s %s — a from() with several where() properties then receives points that fail one of them", flat["Left"], flat["Operator"], flat["Right"])
+	// the conjunction is stored as a new lambda node: nothing is written through the lambda already held, which may be a
+	// TICKscript variable shared with other nodes
+	through := ""
+	ast.Inspect(fn.Decl.Body, func(n ast.Node) bool {
+		if as, ok := n.(*ast.AssignStmt); ok {
+			for _, l := range as.Lhs {
+				if ls := types.ExprString(l); strings.HasPrefix(ls, recv+".Lambda.") {
+					through = ls
+				}
+			}
+		}
+		return true
+	})
+	c.Check(through == "", "C02.where", "FromNode.Where#fresh", fn.Decl.Pos(), "a second where() assigns %s, i.e. it rewrites the lambda object the node was given: when that lambda is a TICKscript variable used by other from() nodes too, they all get the extra condition and stop receiving points their own declaration selects", through)
+	// the first where() stores the lambda itself
+	first := false
+	ast.Inspect(fn.Decl.Body, func(n ast.Node) bool {
+		if as, ok := n.(*ast.AssignStmt); ok && len(as.Lhs) == 1 && len(as.Rhs) == 1 && types.ExprString(as.Lhs[0]) == recv+".Lambda" {
+			if r := types.ExprString(as.Rhs[0]); r == param || strings.HasPrefix(r, "&ast.LambdaNode{") {
+				first = true
+			}
+		}
+		return true
+	})
+	c.Check(first, "C02.where", "FromNode.Where#first", fn.Decl.Pos(), "the first where() must store the given condition")
 }
